@@ -95,7 +95,7 @@ CLAIMED['C14'] = dict(
          '1-3 arguments whose kind ranges over null / int (both representations) / rational / float / string / list / empty list / vector / bytes / dict and whose numeric values are symbolic; a feasible path '
          'ending in panic!/unwrap/expect/todo!/overflow/index-out-of-bounds/division-by-zero is replayed natively and reported when the interpreter really panics; plus the slice-assignment site. '
          'The evidence lists which builtins were encoded (measured ratio) and why the others were not.',
-    note='Partial: builtins needing the environment / I/O / clock / randomness, struct-implemented builtins (impl Builtin) and everything listed as not encoded are outside; hangs are only seen as fuel exhaustion. '
+    note='Partial: builtins needing the environment / I/O / clock / randomness, struct builtins with fields and everything listed as not encoded are outside (the 29 unit-struct builtins are swept with 1 and 2 arguments); hangs are only seen as fuel exhaustion. '
          'The panic obligations of the kernels of C01-C12, C15, C16 are discharged in those checks (index arithmetic, % by zero, 0^-n, permutations/cycle on empty input, \\\\u overflow, decimal exponents were found there). Codec crates are environment stubs (flate2 decoding and base64 decoding return Ok or Err by contract, encoders over in-memory data cannot fail), so the expect / unwrap sites behind them are reachable obligations.',
     design='§7 C14', technique='symbolic execution of rustc MIR + SMT (z3): panic-path feasibility')
 CLAIMED['C04'] = dict(
